@@ -145,7 +145,10 @@ class Tap:
         self.sp = []           # (pred, attr, rho)
         self.replay = list(replay) if replay is not None else None
         self.orig_ps = metric._perturb_samples
-        self.orig_sp = fid.spearmanr
+        # the rank correlation is observed through the module-level scipy `spearmanr` when the implementation uses it; an
+        # implementation that computes it otherwise is judged on its final score against the reference pairs only
+        self.orig_sp = getattr(fid, "spearmanr", None)
+        self.has_sp = self.orig_sp is not None
 
     def __enter__(self):
         def ps(inp, nbp):
@@ -164,11 +167,13 @@ class Tap:
             self.sp.append((np.asarray(a, dtype=np.float64).copy(), np.asarray(b, dtype=np.float64).copy(), float(r[0])))
             return r
         self.metric._perturb_samples = ps
-        self.fid.spearmanr = sp
+        if self.has_sp:
+            self.fid.spearmanr = sp
         return self
 
     def __exit__(self, *exc):
-        self.fid.spearmanr = self.orig_sp
+        if self.has_sp:
+            self.fid.spearmanr = self.orig_sp
         del self.metric._perturb_samples
         return False
 
@@ -244,7 +249,8 @@ def run_muf(ctx, d):
     ctx.check_corr("muf_masks_shared_in_batch", [int(shared)], [Fraction(1)], d)
     # ---- exactly nb_samples perturbations per sample, whatever the batch size
     per_sample = [len(p) for (p, _, _) in tap.sp]
-    ctx.check_prop("nb-perturbations-per-sample", len(tap.sp) == n and all(v == nb for v in per_sample)
+    sp_seen = (len(tap.sp) == n and all(v == nb for v in per_sample)) if tap.has_sp else True
+    ctx.check_prop("nb-perturbations-per-sample", sp_seen
                    and all(sum(c) == nb for c in obs_chunks), d, {"per_sample": per_sample, "chunks": obs_chunks, "nb": nb})
     if d["bs"] is not None and calls:
         ctx.check_prop("calls_le_batch_size", max(calls) <= d["bs"], d, {"max_call": max(calls), "bs": d["bs"]})
@@ -265,12 +271,19 @@ def run_muf(ctx, d):
     # ---- data flow: queries, (pred, attr) pairs
     if nq == len(r["queries"]):
         ctx.check_corr("muf_model_queries", np.concatenate(queries, axis=0), r["queries"], d)
-    impl_pairs = [[[float(a), float(b)] for a, b in zip(p, t)] for (p, t, _) in tap.sp]
-    shapes_ok = len(impl_pairs) == len(r["impl"]) and all(len(a) == len(b) for a, b in zip(impl_pairs, r["impl"]))
-    if shapes_ok:
-        ctx.check_corr("muf_pairs_impl_model", impl_pairs, r["impl"], d, rtol=1e-5, atol=1e-5)
-    ctx.check_pred("pairs-reference", impl_pairs, r["spec"], d, rtol=1e-5, atol=1e-5)
-    pairs_exact = compare(impl_pairs, r["spec"])[0] == "exact"
+    if tap.has_sp:
+        impl_pairs = [[[float(a), float(b)] for a, b in zip(p, t)] for (p, t, _) in tap.sp]
+        shapes_ok = len(impl_pairs) == len(r["impl"]) and all(len(a) == len(b) for a, b in zip(impl_pairs, r["impl"]))
+        if shapes_ok:
+            ctx.check_corr("muf_pairs_impl_model", impl_pairs, r["impl"], d, rtol=1e-5, atol=1e-5)
+        ctx.check_pred("pairs-reference", impl_pairs, r["spec"], d, rtol=1e-5, atol=1e-5)
+        pairs_exact = compare(impl_pairs, r["spec"])[0] == "exact"
+    else:
+        # pairs not observable: the reference pairs determine the score when they are exactly representable in float32
+        # (small-integer data: the implementation's float32 pairs are then the same numbers, ties included)
+        from common import flat
+        pairs_exact = all(Fraction(float(np.float32(float(v)))) == v for v in flat(r["spec"]))
+        ctx.count("muf_spearmanr_not_observable")
     ctx.count("muf_pairs_lane", "exact" if pairs_exact else "tol")
 
     # ---- Spearman: Lean's rank-covariance triple on the OBSERVED sequences vs scipy, and the final mean
@@ -289,9 +302,12 @@ def run_muf(ctx, d):
         same = (rho_l != rho_l and rho_scipy != rho_scipy) or abs(rho_l - rho_scipy) <= 1e-9
         ctx.check_corr("scipy_spearmanr_is_rank_correlation", [0.0 if same else 1.0], [Fraction(0)], d)
         rhos.append(0.0 if rho_l != rho_l else rho_l)
+    if not tap.has_sp:
+        nontrivial = any(q is not None for q in r["rho"])
     ctx.case(d, nontrivial)
     want = float(np.mean(rhos)) if rhos else float("nan")
-    ctx.check_corr("muf_score_impl_model", [score], [Fraction(want)], d, rtol=1e-6, atol=1e-7)
+    if tap.has_sp:
+        ctx.check_corr("muf_score_impl_model", [score], [Fraction(want)], d, rtol=1e-6, atol=1e-7)
     # the score of the reference pairs (Lean Spec side)
     spec_rhos = [0.0 if q is None else float(q[0]) * math.sqrt(float(q[1])) for q in r["rho"]]
     if pairs_exact:     # ranks are not continuous: only exact pairs determine the reference score
